@@ -314,7 +314,7 @@ func (s *grpcServer) GetTree(in *pb.GetTreeRequest,
 	}
 	if err != nil {
 		s.accessLogger.Printf("%s %s %s", errorPrefix, in.RootDigest.Hash, err)
-		return grpc_status.Error(codes.Unknown, err.Error())
+		return grpc_status.Error(gRPCErrCode(err, codes.Unknown), err.Error())
 	}
 
 	dir := pb.Directory{}
@@ -471,7 +471,7 @@ func (s *grpcServer) SpliceBlob(ctx context.Context, req *pb.SpliceBlobRequest) 
 					_ = rc.Close()
 				}
 
-				return nil, grpc_status.Errorf(codes.Unknown,
+				return nil, grpc_status.Errorf(gRPCErrCode(err, codes.Unknown),
 					"SpliceBlob failed to get chunk %s/%d: %s",
 					chunkDigest.Hash, chunkDigest.SizeBytes, err)
 			}
@@ -560,7 +560,7 @@ func (s *grpcServer) SpliceBlob(ctx context.Context, req *pb.SpliceBlobRequest) 
 				if rc != nil {
 					_ = rc.Close()
 				}
-				writerResultChan <- grpc_status.Errorf(codes.Unknown,
+				writerResultChan <- grpc_status.Errorf(gRPCErrCode(err, codes.Unknown),
 					"SpliceBlob failed to get chunk %s/%d: %s",
 					chunkDigest.Hash, chunkDigest.SizeBytes, err)
 				return
